@@ -59,3 +59,42 @@ let c04_footprint (ar : Float64.t arith) (toks : string list) : string =
        done;
        Buffer.contents b)
   | _ -> "BADARGS"
+
+(* INITMODEL <Model> n nSets nP P <nP*nSets hex> ROWS (len hex..){nSets}
+     -> PANIC | OK rows cols hex..      the model's InitialiseStates(n) (Wrapper/Run.v initialise_states),
+   with the init function given as the table  parameter column of set c -> ROWS[c]. *)
+let c04_hex f = Printf.sprintf "%016Lx" (Int64.bits_of_float (Float64.to_float f))
+let c04_bits f = Int64.bits_of_float (Float64.to_float f)
+let c04_initmodel (ar : Float64.t arith) (toks : string list) : string =
+  match toks with
+  | name :: n :: nsets :: np :: "P" :: rest ->
+    let i = int_of_string in
+    let n = i n and nsets = i nsets and np = i np in
+    let rec take k l acc = if k = 0 then (List.rev acc, l) else
+        match l with x :: r -> take (k - 1) r (x :: acc) | [] -> failwith "short" in
+    let (pv, rest) = take (np * nsets) rest [] in
+    let p = List.map c04_unhex pv in
+    let rows = match rest with
+      | "ROWS" :: r ->
+        let rec go c r acc = if c = 0 then List.rev acc else
+            match r with
+            | len :: r' -> let (vs, r'') = take (i len) r' [] in go (c - 1) r'' (List.map c04_unhex vs :: acc)
+            | [] -> failwith "rows" in
+        go nsets r []
+      | _ -> failwith "expected ROWS" in
+    (match wrapper_spec (c04_coq_string name) with
+     | None -> "NOSPEC"
+     | Some sp ->
+       let parr = Array.of_list p in
+       let column c = List.init np (fun r -> parr.(r * nsets + c)) in
+       let kinit ps =
+         let key = List.map c04_bits ps in
+         let rec find c = if c >= nsets then [] else
+             if List.map c04_bits (column c) = key then List.nth rows c else find (c + 1) in
+         find 0 in
+       (match wrapper_initialise_states ar kinit sp (c04_nat_of_int nsets) p (c04_nat_of_int n) with
+        | None -> "PANIC"
+        | Some (dims, st) ->
+          "OK " ^ String.concat " " (List.map (fun d -> string_of_int (c04_int_of_nat d)) dims) ^
+          String.concat "" (List.map (fun v -> " " ^ c04_hex v) st)))
+  | _ -> "BADARGS"
